@@ -290,6 +290,29 @@ async fn gen_proc(sim: &mut Sim, rng: &mut Prng, stats: &mut Stats, name: &str) 
                 if m != n {
                     stats.bump("op_stale_syn_roundtrip");
                     let syn0 = sim.syn(n);
+                    if rng.chance(1, 2) {
+                        // variant: the OWNER deletes and collects a key its peer still holds, then
+                        // the answer to the delayed SYN (which carries that key) comes back
+                        let k = pick_key(rng, allow_mb);
+                        sim.set(n, k, *rng.pick(VALUES));
+                        full_handshake(sim, n, m);
+                        if rng.chance(1, 2) {
+                            sim.delete(n, k);
+                        } else {
+                            sim.delete_after_ttl(n, k);
+                        }
+                        sim.tick(kv_grace).await;
+                        sim.gc(n);
+                        if let Some(syn0) = syn0 {
+                            if let Some(synack) = sim.deliver(m, &syn0) {
+                                sim.deliver(n, &synack);
+                                if rng.chance(1, 2) {
+                                    sim.deliver(n, &synack);
+                                }
+                            }
+                        }
+                        continue;
+                    }
                     match rng.below(3) {
                         0 => sim.set(n, pick_key(rng, allow_mb), *rng.pick(VALUES)),
                         1 => sim.delete(n, pick_key(rng, allow_mb)),
@@ -583,6 +606,22 @@ pub async fn gen_catchup(sim: &mut Sim, rng: &mut Prng, stats: &mut Stats, name:
     }
     let ids = [mk_id("a", 0, 4000), mk_id("b", 0, 4001), mk_id("ghost", 2, 4002)];
     let keys = ["a", "b", "ab", "k"];
+    if rng.chance(1, 6) {
+        // a member known ONLY through catch-up (no heartbeat ever seen): it is never live, is
+        // marked dead, removed after the grace period — and must not be recreated by a later catch-up
+        stats.bump("catchup_cases_member_known_only_through_catchup");
+        let n = rng.below(2) as usize;
+        let ghost = ids[2].clone();
+        sim.catchup(n, &ghost, &[("k".to_string(), "x".to_string(), 1, 0)], 1 + rng.below(2), 0);
+        sim.eval(n);
+        sim.tick(dead_grace / 2 + 1).await;
+        sim.eval(n);
+        sim.tick(dead_grace).await;
+        sim.eval(n);
+        let mx = 2 + rng.below(3);
+        sim.catchup(n, &ghost, &[("k".to_string(), "y".to_string(), mx, 0)], mx, rng.below(2));
+        sim.eval(n);
+    }
     let nops = rng.range(4, 25);
     for _ in 0..nops {
         if sim.dead_case {
